@@ -94,7 +94,7 @@ func verifC08_e2e() {
 			// at real sizes the cut comes from a few representative places, not from every offset
 			cuts = []int{[]int{1, len(payload) / 2, len(payload) - 1}[vChoose("cutAtIdx", 3)]}
 		} else {
-			cuts = []int{vChoose("cutAt", len(payload))}
+			cuts = []int{vChoose("cutAt", len(payload)+1)} // (up to and including an empty final fragment: what a streaming Writer emits)
 		}
 	}
 	frames := vDataFrames(payload, cuts, 2, compressed, client)
